@@ -98,6 +98,7 @@ def field_source(fdef):
 
 def models_source(app, mods):
     lines = ['from django.db import models',
+             'from django.db.models.functions import Lower',
              'from vcheck.customfields import SubM2M', '', '']
     if not mods:
         lines.append('# no models at this version')
@@ -120,6 +121,10 @@ def models_source(app, mods):
         if meta.get('indexes'):
             parts = []
             for ix in meta['indexes']:
+                if ix.get('lower'):
+                    parts.append('models.Index(Lower(%r), name=%r)' % (
+                        ix['lower'], ix['name']))
+                    continue
                 a = 'fields=%r, name=%r' % (list(ix['fields']), ix['name'])
                 if ix.get('condition'):
                     a += ', condition=%s' % q_source(ix['condition'])
